@@ -222,6 +222,8 @@ def run_c02(ctx):
     # direction B: random documents on the fixed universe with all three strategies (universes=0)
     record_and_judge(ctx, uni, "record-3-strategies", aspects - {"precedence"}, devs, ctx.prop, 1200 if ctx.tier == "quick" else 12000,
                      strategies="iface,any,refl", universes=0)
+    import lazybind
+    lazybind.binding_logs(ctx)
     ctx.exhaustive = True
     ctx.rule = ("every case of the families %s (the feature set common to the strategies) is executed with the data realised as Resolver objects, "
                 "behind an AnyResolver, as reflected Go structs/methods bound by name, by RegisterType and by @go, and - family 'mixed' - with every "
